@@ -65,6 +65,10 @@ def _mods(a, b, deepA, deepB, overlap, idA, entB, compA, compB):
     if overlap:
         A.append(ob + '.1.2')        # A also defines a node inside B's subtree
         B.append(oa)                 # and B defines A's root too (shared subtree)
+    if deepA and deepB:
+        # a nested node shared by both modules, each with its own child below it
+        A.extend([oa + '.5', oa + '.5.2'])
+        B.extend([oa + '.5', oa + '.5.3'])
     sa = statusCompiled.setOptions(oids=tuple(A), identity=(oa if idA else None), enterprise=None,
                                    compliance=tuple([oa + '.7.1'] if (compA and deepA) else []))
     sb = statusCompiled.setOptions(oids=tuple(B), identity=None, enterprise=(B[0] if entB else None),
@@ -114,15 +118,18 @@ def index(ai: int, bi: int, deepA: bool, deepB: bool, overlap: bool, idA: bool, 
     b = pick(bi)
     results, oids = _mods(a, b, deepA, deepB, overlap, idA, entB, compA, compB)
     g = JsonCodeGen()
+    last = results
     if history == 0:
         idx = g.genIndex(results)
     else:
+        last = None
         first = 'A' if history == 1 else 'B'
         second = 'B' if history == 1 else 'A'
         idx1 = g.genIndex({first: results[first]})
         if not _check_index(plain(idx1), {first: results[first]}, {first: oids[first]}):
             return False
-        idx = g.genIndex({second: results[second]}, old_index_data=idx1)
+        last = {second: results[second]}
+        idx = g.genIndex(last, old_index_data=idx1)
         p1, p = plain(idx1), plain(idx)
         # nothing the earlier index provided is lost
         for sect in ('identity', 'enterprise', 'compliance'):
@@ -134,7 +141,8 @@ def index(ai: int, bi: int, deepA: bool, deepB: bool, overlap: bool, idA: bool, 
     if not _check_index(p, results, oids):
         return False
     # re-indexing the same results on top of the index changes nothing
-    again = plain(g.genIndex(results, old_index_data=idx))
+    # (idempotence of one build step: the SAME results indexed again on top of the index they produced)
+    again = plain(g.genIndex(last, old_index_data=idx))
     return again == p
 
 
